@@ -277,6 +277,17 @@ def _str(sx, args, kw, st, node):
         return ok(st, r)
     if isinstance(t, V._Bool):
         return ok(st, Val(V.Str, z3.If(v.term, z3.StringVal("True"), z3.StringVal("False"))))
+    if isinstance(t, V.Opt) and isinstance(t.inner, (V._Int, V._Str)) and not sx.spec_mode:
+        # str(None) == 'None'; otherwise the text of the value
+        outs = []
+        isn = t.is_none(v.term)
+        s_none = st.fork().assume(isn)
+        if sx.feasible(s_none):
+            outs.append(R(s_none, V.mk_str("None")))
+        s_some = st.assume(z3.Not(isn))
+        if sx.feasible(s_some):
+            outs.extend(_str(sx, [Val(t.inner, t.get(v.term))], kw, s_some, node))
+        return outs
     m = sx.reg.str_of(sx, v, st, node)
     if m is not None:
         return m
@@ -951,11 +962,21 @@ def str_method(sx, obj, attr, args, kwargs, st, node):
                 nonempty = sx.set_nonempty(coll, st)
             else:
                 raise Unsupported("join of %r" % (coll.ty,), node)
-            sx.oblige(st, "%s/join:%s:elements-in-%s" % (sx.cur_func, node.args[0].id, cname), claim, "hole", node)
+            if node.args[0].id in (getattr(sx.unit, "refined", None) or {}):
+                # data-structure invariant carried by the syntactic discipline (verify.check_refined_discipline) plus the
+                # obligation at every add/append: assumed here, not re-proved
+                st.assume(claim)
+            else:
+                sx.oblige(st, "%s/join:%s:elements-in-%s" % (sx.cur_func, node.args[0].id, cname), claim, "hole", node)
             r = sx.fresh(t, "joined", st)
             st.assume(z3.Implies(z3.Not(nonempty), r.term == z3.StringVal("")))
-            sx.with_class(r, z3.Option(z3.Concat(cre, z3.Star(z3.Concat(sepc, cre)))), st)
-            st.assume(z3.Implies(nonempty, z3.InRe(r.term, z3.Concat(cre, z3.Star(z3.Concat(sepc, cre))))))
+            full = z3.Concat(cre, z3.Star(z3.Concat(sepc, cre)))
+            if not sx.feasible(st, z3.Not(nonempty)):
+                # the collection is known to be non-empty on this path: the result has at least one element
+                sx.with_class(r, full, st)
+            else:
+                sx.with_class(r, z3.Option(full), st)
+                st.assume(z3.Implies(nonempty, z3.InRe(r.term, full)))
             return [R(st, r)]
         if m is None:
             # default: an otherwise unconstrained string (empty for an empty sequence)
@@ -966,8 +987,12 @@ def str_method(sx, obj, attr, args, kwargs, st, node):
                 st.assume(z3.Implies(payload.ty.n(payload.term) == 0, r.term == z3.StringVal("")))
                 ec = (payload.aux or {}).get("elem_re")
                 if ec is not None:
-                    # sep.join(xs) with every x in L(ec):  (ec (sep ec)*)?
-                    sx.with_class(r, z3.Option(z3.Concat(ec, z3.Star(z3.Concat(sepc, ec)))), st)
+                    # sep.join(xs) with every x in L(ec):  (ec (sep ec)*)?   -- without the '?' when xs is known to be non-empty
+                    full = z3.Concat(ec, z3.Star(z3.Concat(sepc, ec)))
+                    if not sx.feasible(st, payload.ty.n(payload.term) == 0):
+                        sx.with_class(r, full, st)
+                    else:
+                        sx.with_class(r, z3.Option(full), st)
             elif kind == "conc":
                 if not payload:
                     st.assume(r.term == z3.StringVal(""))
@@ -1330,7 +1355,16 @@ def any_all_comprehension(sx, node, st):
         # character-class test over the characters of a string with a literal class:
         #   all(c in LIT for c in s)  ==  not any(c not in LIT for c in s)  ==  s in (c1|c2|...)*
         lit = comp.elt.comparators[0].value
-        cls = z3.Star(z3.Union(*[z3.Re(z3.StringVal(ch)) for ch in sorted(set(lit))])) if len(set(lit)) > 1 else z3.Star(z3.Re(z3.StringVal(lit[0])))
+        # canonical form: maximal runs of consecutive code points become ranges, in code-point order ('0123456789abcdef' -> [0-9]|[a-f])
+        chars = sorted(set(lit))
+        runs = []
+        for ch in chars:
+            if runs and ord(ch) == ord(runs[-1][1]) + 1:
+                runs[-1][1] = ch
+            else:
+                runs.append([ch, ch])
+        parts = [z3.Range(a, b) if a != b else z3.Re(z3.StringVal(a)) for a, b in runs]
+        cls = z3.Star(z3.Union(*parts)) if len(parts) > 1 else z3.Star(parts[0])
         inside = z3.InRe(src.term, cls)
         op = comp.elt.ops[0]
         if is_all and isinstance(op, ast.In):
